@@ -186,9 +186,9 @@ func authFamily(seed uint64, tier string, args []string) {
 		}()
 	}
 	// --- HTTP handler
-	hdrs := []*string{nil, sp(""), sp("Bearer tokA"), sp("Bearer tokBad"), sp("Bearer "), sp("Bearer"), sp("bearer tokA"), sp("Basic tokA"), sp("tokA"), sp("Bearer  tokA"), sp("BearerX tokA"), sp(" Bearer tokA"), sp("Bearer tokNil")}
-	queries := []*string{nil, sp(""), sp("tokA"), sp("tokBad"), sp("Bearer tokA"), sp("tokE"), sp("tokNil")}
-	verifyTable := map[string][]auth.Permission{"tokA": {"read", "write"}, "tokE": {}, "tokNil": nil, "": {"admin"}, " tokA": {"read"}}
+	hdrs := []*string{nil, sp(""), sp("Bearer tokA"), sp("Bearer tokBad"), sp("Bearer "), sp("Bearer"), sp("bearer tokA"), sp("Basic tokA"), sp("tokA"), sp("Bearer  tokA"), sp("BearerX tokA"), sp(" Bearer tokA"), sp("Bearer tokNil"), sp("Bearer read-token"), sp("Bearer eyJhbGci"), sp("Bearer Bearer"), sp("Bearer  read-token"), sp("Bearer aaa")}
+	queries := []*string{nil, sp(""), sp("tokA"), sp("tokBad"), sp("Bearer tokA"), sp("tokE"), sp("tokNil"), sp("read-token"), sp("eyJhbGci"), sp("Bearer")}
+	verifyTable := map[string][]auth.Permission{"tokA": {"read", "write"}, "tokE": {}, "tokNil": nil, "": {"admin"}, " tokA": {"read"}, "read-token": {"read"}, "eyJhbGci": {"write"}, "Bearer": {"admin"}, "d-token": {"admin", "sign"}, "yJhbGci": {"admin"}}
 	for _, h := range hdrs {
 		for _, q := range queries {
 			var verifyCalls []string
